@@ -6,11 +6,17 @@ package main
 
 import (
 	"crypto/aes"
+	"crypto/hmac"
+	"crypto/sha256"
+	"crypto/sha512"
+	"encoding/binary"
 	"encoding/hex"
 	"encoding/json"
 	"errors"
 	"fmt"
+	"hash"
 	"os"
+	"path/filepath"
 	"sort"
 	"strings"
 	"time"
@@ -1075,6 +1081,31 @@ func (h *H) cbcHmacDirect() {
 				h.cbcHmacTamperMonitor(mc, o)
 				h.queue("aescbcaead.Open = model cbcHmacOpen", oline(nonce, so.a, m), canonOut(o), mc)
 			}
+			// a key holder's message whose body is NOT block aligned but whose tag is right:
+			// must be an error, not a panic in CryptBlocks
+			if hf := macFor(ct.name); hf != nil {
+				for _, bl := range []int{1, 15, 17, 33} {
+					body := h.rng.Bytes(bl)
+					mac := hmac.New(hf, key[:ct.keyLen-encLen(ct.name)])
+					al := make([]byte, 8)
+					binary.BigEndian.PutUint64(al, uint64(len(ad))*8)
+					mac.Write(ad)
+					mac.Write(nonce)
+					mac.Write(body)
+					mac.Write(al)
+					forged := append(cp(body), mac.Sum(nil)[:ct.tagLen]...)
+					o := open(nonce, forged, ad)
+					fc := Case{Family: "cbchmac", Monitor: "cbchmac-misaligned", Alg: ct.name, Key: hx(key), Nonce: hx(nonce), Data: hx(forged), AD: hx(ad), Mut: "valid tag over a misaligned body"}
+					h.res.Count(oline(nonce, forged, ad), true)
+					h.res.Hit("cbchmac:misaligned-authentic")
+					if o.class == "panic" || o.class == "timeout" {
+						h.res.Violate("cbchmac-open-"+o.class, "Open of an authentic but misaligned message "+o.class+": "+o.msg, fc)
+					} else if o.class == "ok" {
+						h.res.Violate("cbchmac-misaligned-accepted", "Open accepted a body that is not whole blocks", fc)
+					}
+					h.queue("aescbcaead.Open = model cbcHmacOpen", oline(nonce, forged, ad), canonOut(o), fc)
+				}
+			}
 			for cut := 1; cut <= len(so.a); cut += 1 + cut/5 {
 				m := cp(so.a[:len(so.a)-cut])
 				o := open(nonce, m, ad)
@@ -1085,6 +1116,28 @@ func (h *H) cbcHmacDirect() {
 			}
 		}
 	}
+}
+
+func macFor(ctor string) func() hash.Hash {
+	switch ctor {
+	case "NewAESCBC128SHA256":
+		return sha256.New
+	case "NewAESCBC192SHA384", "NewAESCBC256SHA384":
+		return sha512.New384
+	case "NewAESCBC256SHA512":
+		return sha512.New
+	}
+	return nil
+}
+
+func encLen(ctor string) int {
+	switch ctor {
+	case "NewAESCBC128SHA256":
+		return 16
+	case "NewAESCBC192SHA384":
+		return 24
+	}
+	return 32
 }
 
 type aeadIface interface {
@@ -1250,7 +1303,20 @@ func (h *H) replay(path string) {
 	default:
 		h.res.Note("replay: family " + c.Family + " is replayed by re-running the generator with the stored seed")
 	}
-	h.compareWithModel()
+}
+
+// corpus: past findings (corpus/C03/*.case, same format as replay files) run first on every run.
+func (h *H) corpus() {
+	dir := os.Getenv("VERIF_DIR")
+	if dir == "" {
+		dir = "/verif"
+	}
+	files, _ := filepath.Glob(filepath.Join(dir, "corpus", "C03", "*.case"))
+	sort.Strings(files)
+	for _, f := range files {
+		h.replay(f)
+		h.res.Hit("corpus-case")
+	}
 }
 
 // ---------------------------------------------------------------- main
@@ -1262,10 +1328,12 @@ func main() {
 	h.keys = makeForeignKeys()
 	if f.Replay != "" {
 		h.replay(f.Replay)
+		h.compareWithModel()
 		res.Write(f.Out)
 		return
 	}
 	t0 := time.Now()
+	h.corpus()
 	rounds := 1
 	if f.Search {
 		rounds = 6
